@@ -154,7 +154,9 @@ def observe(c):
                     continue
                 try:
                     got = complex(np.asarray(fn(A)).reshape(-1)[0])
-                    if abs(got - w) > (5e-2 if single else 1e-5) * scale:
+                    # (eigmax runs power iteration at its default tolerance 1e-6 on the change of the Rayleigh
+                    # quotient: with a magnitude ratio up to 0.8 the value is accurate to about 1e-4)
+                    if abs(got - w) > (5e-2 if single else (1e-4 if nm == "eigmax" else 1e-5)) * scale:
                         V(nm, f"{nm}(A) = {got:.6g}, expected {w:.6g}", alg="Auto", which="LM" if nm == "eigmax" else "SM")
                 except Exception as e:  # noqa: BLE001
                     V("exception", f"{nm}(A) raised {type(e).__name__}: {str(e)[:120]}", alg="Auto", fn=nm,
